@@ -16,10 +16,14 @@ pub struct CyberCycle<T, V> {
     #[getset(get_copy = "pub")]
     window_len: usize,
     alpha: T,
+    // the four most recent values, oldest first.
     vals: VecDeque<T>,
+    // the three most recent cycle values, oldest first.
     out: VecDeque<T>,
-    // avoid allocation in `update` step by re-using this buffer.
-    smooth: Vec<T>,
+    // the three most recent smoothed values, oldest first.
+    smooth: VecDeque<T>,
+    // number of values observed so far.
+    n_observed_values: usize,
 }
 
 impl<T, V> CyberCycle<T, V>
@@ -36,9 +40,10 @@ where
             window_len,
             alpha: T::from(2.0).expect("can convert")
                 / (T::from(window_len).expect("can convert") + T::one()),
-            vals: VecDeque::with_capacity(window_len),
-            out: VecDeque::with_capacity(window_len),
-            smooth: vec![T::zero(); window_len],
+            vals: VecDeque::with_capacity(4),
+            out: VecDeque::with_capacity(3),
+            smooth: VecDeque::with_capacity(3),
+            n_observed_values: 0,
         }
     }
 }
@@ -54,35 +59,41 @@ where
         let Some(val) = self.view.last() else { return };
         debug_assert!(val.is_finite(), "value must be finite");
 
-        if self.vals.len() >= self.window_len {
+        let two = T::from(2.0).expect("can convert");
+        if self.vals.is_empty() {
+            // values before the first one are taken to be equal to it.
+            for _ in 0..3 {
+                self.vals.push_back(val);
+            }
+            self.smooth.push_back(val);
+            self.smooth.push_back(val);
+            self.out.push_back(T::zero());
+            self.out.push_back(T::zero());
+        }
+        if self.vals.len() >= 4 {
             self.vals.pop_front();
-            self.out.pop_front();
         }
         self.vals.push_back(val);
+        if self.smooth.len() >= 3 {
+            self.smooth.pop_front();
+        }
+        self.smooth.push_back(
+            (self.vals[3] + two * self.vals[2] + two * self.vals[1] + self.vals[0])
+                / T::from(6.0).expect("can convert"),
+        );
+        if self.out.len() >= 3 {
+            self.out.pop_front();
+        }
+        self.n_observed_values += 1;
 
-        if self.vals.len() < self.window_len {
+        if self.n_observed_values < self.window_len {
             self.out.push_back(T::zero());
             return;
         }
-        let last = self.vals.len() - 1;
-        let two = T::from(2.0).expect("can convert");
-        for (i, v) in self
-            .smooth
-            .iter_mut()
-            .enumerate()
-            .take(self.vals.len())
-            .skip(3)
-        {
-            *v = (val
-                + two * *self.vals.get(i - 1).unwrap()
-                + two * *self.vals.get(i - 2).unwrap()
-                + *self.vals.get(i - 3).unwrap())
-                / T::from(6.0).expect("can convert")
-        }
         let cc = (T::one() - T::from(0.5).expect("can convert") * self.alpha).powi(2)
-            * (self.smooth[last] - two * self.smooth[last - 1] + self.smooth[last - 2])
-            + two * (T::one() - self.alpha) * *self.out.get(last - 1).unwrap()
-            - (T::one() - self.alpha).powi(2) * *self.out.get(last - 2).unwrap();
+            * (self.smooth[2] - two * self.smooth[1] + self.smooth[0])
+            + two * (T::one() - self.alpha) * self.out[1]
+            - (T::one() - self.alpha).powi(2) * self.out[0];
         debug_assert!(cc.is_finite(), "value must be finite");
         self.out.push_back(cc);
     }
